@@ -6,7 +6,7 @@
     run completed.  Programs: [wf_prog_stale] = what the safe [tracing] API permits, including
     [follows_from] towards an arbitrary id (closed, unknown, or by coincidence that of an open span),
     and records / enters / exits / events / children on spans the layer filtered out. *)
-From TT Require Import Capture.LayerProofs.
+From TT Require Import Capture.LayerProofs Judge.C05C16Proofs.
 
 (** one capture layer: no callback panics, whatever the filter and whatever ids the Registry issued *)
 Theorem C16_capture_total :
@@ -40,6 +40,14 @@ Theorem C16_stack_storages_are_spec :
       stack_storages ls' = map (fun filter => spec_storage filter ids p) (stack_filters ls) /\
       stack_keys ls' = stack_keys ls /\ stack_filters ls' = stack_filters ls.
 Proof. exact (fun ids p ls Hwf => stacks_refine ids p Hwf ls). Qed.
+
+(** the judge of the correspondence run ([Judge/C16.v], stacks built by [mk_stack]: distinct storage
+    keys, empty storages) on the model's own output: [Agree] for every stack specification *)
+Theorem C16_judge_ok_on_model : forall p ids specs,
+  wf_prog_stale_b p = true -> single_threaded p = true ->
+  judge_stack p ids specs (stack_result (stack_run ids p (mk_stack specs)))
+              (map (fun f => storage_of (layer_run (feval f) ids p)) (spec_filters specs)) = Agree.
+Proof. exact judge_stack_ok_on_model. Qed.
 
 (** Non-vacuity: follows-from towards the id of a closed span (finding F5), an unknown id and the raw
     id of an open span; records and enters on a span one of the layers filtered out; two capture
